@@ -188,6 +188,9 @@ struct iluk {
         return ilu->bytes();
     }
 
+#ifdef AMGCL_VERIF
+    friend struct ::amgcl::verif::access;
+#endif
     private:
         std::shared_ptr<ilu_solve> ilu;
 
